@@ -617,7 +617,7 @@ func RuleBroadcastHelper(r *Report, p *Program) {
 		r.Fatal("B11", "broadcast-helper", "not found")
 		return
 	}
-	const N = 3
+	N := bound(3, 4)
 	w := NewWalker(p)
 	w.LoopFuel = N + 2
 	up := p.SSAPkg("uhppote")
@@ -628,14 +628,14 @@ func RuleBroadcastHelper(r *Report, p *Program) {
 		}
 		rt := c.Method.Type().(*types.Signature).Results().At(0).Type()
 		et := rt.Underlying().(*types.Slice).Elem()
-		at := types.NewArray(et, N)
+		at := types.NewArray(et, int64(N))
 		cell := w.newCell("datagrams", at, true)
 		els := make([]*Term, N)
 		for i := range els {
 			els[i] = &Term{Op: "param", Name: fmt.Sprintf("dg%d", i), Typ: et}
 		}
 		cell.Val = &Term{Op: "slicev", Args: els, Typ: at}
-		sl := &Term{Op: "sref", Cell: cell, Typ: rt, Args: []*Term{mkInt(0, types.Typ[types.Int]), mkInt(N, types.Typ[types.Int])}}
+		sl := &Term{Op: "sref", Cell: cell, Typ: rt, Args: []*Term{mkInt(0, types.Typ[types.Int]), mkInt(int64(N), types.Typ[types.Int])}}
 		errT := &Term{Op: "fresh", Name: "transporterr", Typ: types.Universe.Lookup("error").Type()}
 		w.event(Event{Kind: "call", Name: "transport:broadcast-all", Args: args, Pos: in.Pos(), Instr: in})
 		return &Term{Op: "tuple", Args: []*Term{sl, errT}}, true
